@@ -381,18 +381,27 @@ impl SequenceMatcher {
                 );
             }
 
-            if ts_b >= ts_a && !(same_rows && row_a == row_b) {
+            // same_rows: row_b may be row_a itself; b_ptr must not move past it for that reason, a B
+            // at the same time sorted before row_a is still a successor (the search below skips row_a)
+            if ts_b >= ts_a {
                 timestamp_passed += 1;
                 // Match found: event B follows event A (or happens at the same time)
-                // Apply WHERE clause filtering if present
-                let passes_where = self.matches_where_clause(
-                    event_type_a,
-                    zones_a,
-                    row_a,
-                    event_type_b,
-                    zones_b,
-                    row_b,
-                );
+                // Apply WHERE clause filtering if present. The nearest B may fail it while a later
+                // one passes, so take the first later B that passes (without WHERE: row_b itself).
+                // b_ptr stays where it is: the B events skipped here may match a later A.
+                let partner = b_indices[b_ptr..].iter().find(|cand| {
+                    !(same_rows && row_a == *cand)
+                        && self.matches_where_clause(
+                            event_type_a,
+                            zones_a,
+                            row_a,
+                            event_type_b,
+                            zones_b,
+                            cand,
+                        )
+                });
+                let passes_where = partner.is_some();
+                let row_b = partner.unwrap_or(row_b);
 
                 if tracing::enabled!(tracing::Level::DEBUG) && timestamp_passed <= 20 {
                     debug!(
@@ -441,7 +450,7 @@ impl SequenceMatcher {
                 }
                 a_ptr += 1;
             } else {
-                // Event B is not after event A (or is event A itself), advance b_ptr
+                // Event B is not after event A, advance b_ptr
                 b_ptr += 1;
             }
         }
